@@ -8,7 +8,7 @@ _TUS = [_P + x for x in ('cppStructType.cxx', 'cppExtensionType.cxx', 'cppScope.
                          'cppAttributeList.cxx', 'cppFile.cxx')] + ['src/dtoolutil/filename.cxx']
 _CUT = ['_ZN7CPPType8new_typeEPS_']
 _SKIP = [x.split('/')[-1] for x in _TUS] + ['cppExpression.cxx']
-_LOOPS = {'harness_c10_traits.0': 20, 'harness_c10_traits.1': 20, '_ZL11check_classii.0': 50, '_ZL11check_classii.1': 50,
+_LOOPS = {'harness_c10_ctor_params.0': 12, 'harness_c10_traits.0': 20, 'harness_c10_traits.1': 20, '_ZL11check_classii.0': 50, '_ZL11check_classii.1': 50,
           '_ZL11check_classii.2': 50, '_ZL11check_classii.3': 50, 'll_memcpy.0': 48, 'll_memmove.0': 48}
 _DOMAIN = ('one class A, no bases, one data member; WHICH of A(), A(const A&), ~A(), virtual void f()=0 exist and whether each '
            'is user-provided / =default / =delete / virtual are enumerated by concrete loops (they shape the std::list of virtual '
@@ -63,6 +63,9 @@ HARNESSES = [
     _h('c10_member_init', 'member with a default member initializer (int m = 0; const int m = 0;)',
        {'MEMS': '0x18', 'DTORS': 0, 'PRESENCE': _presence(0, 1)}, tdefs={'MEMS': '0x18', 'DTORS': 0, 'PRESENCE': _presence(0, 1, 2, 3)},
        extra_tus=[_P + 'cppExpression.cxx']),
+    dict(_h('c10_ctor_params', 'one user-provided constructor with parameters: A(), A(int), A(int=0), A(int, int=0), A(int=0, int=0); '
+            'access symbolic; get_default_constructor / is_default_constructible / is_copy_constructible', {},
+            extra_tus=[_P + 'cppExpression.cxx']), entry='harness_c10_ctor_params'),
 ]
 
 # ---- one base class (thorough tier only): class B { special members }; class A : public B { [void f();] int m; } ----------
@@ -70,7 +73,7 @@ _BASE_LOOPS = dict(_LOOPS, **{'ll_strlen.0': 48, 'll_memcmp.0': 48, 'harness_c10
                               '_ZL10check_pairii.2': 50, '_ZL10check_pairii.3': 50})
 
 
-def _hb(hid, desc, defs, cap=2400, tiers=('thorough',)):
+def _hb(hid, desc, defs, cap=2400, tiers=('thorough',), tdefs=None):
     return {'id': hid, 'property': 'C10', 'src': 'c10_base.cxx', 'entry': 'harness_c10_base', 'tus': _TUS + [_P + 'cppPointerType.cxx'], 'cut': _CUT,
             # get_virtual_funcs names the inherited function through CPPNameComponent::get_name_with_templ, which builds the
             # name in a std::ostringstream: opaque stream model, TUs lowered with -fno-inline (see cat/c06.py)
@@ -79,12 +82,20 @@ def _hb(hid, desc, defs, cap=2400, tiers=('thorough',)):
             'desc': desc, 'oracle': _ORACLE.replace('c10_oracle.h', 'c10_oracle.h (c10d_*)'),
             'domain': 'class B with special members as in the single-class harnesses (kinds by concrete loops, access symbolic) and '
                       'class A : public B declaring no special member; here: ' + desc,
-            'bounds': {'quick': {'defs': defs, 'unwind': 7, 'unwindset': _BASE_LOOPS, 'cap': cap}}}
+            'bounds': dict({'quick': {'defs': defs, 'unwind': 7, 'unwindset': _BASE_LOOPS, 'cap': cap}},
+                           **({'thorough': {'defs': tdefs, 'unwind': 7, 'unwindset': _BASE_LOOPS, 'cap': 2400}} if tdefs else {}))}
 
 
 HARNESSES += [
-    _hb('c10_base_pv', 'B abstract (pure virtual f, no other special member); A without f, or overriding it with the same / an '
-        'identical pointer / a covariant return type', {'PRESENCE': _presence(8), 'OVERRIDES': 15}, cap=600, tiers=('quick', 'thorough')),
+    _hb('c10_base_override', 'B abstract (pure virtual B *f() only); A overrides it with the covariant A *f() '
+        '(thorough: also without f, void/void and an identical pointer type): is_abstract / is_polymorphic / is_destructible of A',
+        {'PRESENCE': _presence(8), 'OVERRIDES': 8, 'CHECKS': '0x1c'}, cap=600, tiers=('quick', 'thorough'),
+        tdefs={'PRESENCE': _presence(8), 'OVERRIDES': 15, 'CHECKS': '0x1c'}),
+    _hb('c10_base_pv_ctor', 'B abstract (pure virtual f only); A without f or overriding it: is_default_constructible / '
+        'is_copy_constructible of A', {'PRESENCE': _presence(8), 'OVERRIDES': 2, 'CHECKS': '0x03'}, cap=900, tiers=('quick', 'thorough'),
+        tdefs={'PRESENCE': _presence(8), 'OVERRIDES': 15, 'CHECKS': '0x03'}),
+    _hb('c10_base_puredtor', 'B { virtual ~B() = 0; int m; } (no other special member), A : public B without own destructor',
+        {'PRESENCE': _presence(4), 'OVERRIDES': 1, 'DTKINDS': '0x10'}, cap=600, tiers=('quick', 'thorough')),
     _hb('c10_base_pv2', 'B abstract with one more special member (incl. a pure virtual destructor); A with and without the overrider',
         {'PRESENCE': _presence(9, 12), 'OVERRIDES': 3}),
     _hb('c10_base_one', 'B with at most one special member, A without f', {'PRESENCE': _presence(0, 1, 2, 4), 'OVERRIDES': 1}),
